@@ -1,43 +1,1323 @@
+// c11: drives the REAL masswallet/db + masswallet/db/ldb on op sequences against a LevelDB in a
+// temp dir (created and removed here) and prints one line per op:
+//
+//	<op> \t <projected result> \t <reference verdict>
+//
+// The op language is the one of coq/KV/Model.v [op]; bytes are hex ("-" = empty).
+// The reference verdict is the second oracle: a plain Go map keyed by (bucket name tuple, key)
+// — no key encoding at all — that predicts point reads, prefix reads, listings, read-only
+// iteration and the full content after commit / rollback / failed Update / reopen.
+// "-" = no prediction (behaviour outside the property text, or the run is tainted by it),
+// "ok" = prediction met, "BAD:<expected>" = the implementation's observation violates the property.
 package main
 
 import (
+	"bufio"
+	"encoding/hex"
+	"errors"
+	"flag"
 	"fmt"
 	"os"
 	"path/filepath"
-	"runtime/pprof"
-	"time"
+	"sort"
+	"strconv"
+	"strings"
 
 	"github.com/massnetorg/mass-core/logging"
 	mwdb "massnet.org/mass-wallet/masswallet/db"
 	"massnet.org/mass-wallet/masswallet/db/ldb"
+	"verifharness/internal/rng"
 )
 
-func main() {
-	tmp, _ := os.MkdirTemp("", "c11-")
-	defer os.RemoveAll(tmp)
-	logging.Init(tmp, "c11.log", "fatal", 1, true)
-	f, _ := os.Create("/tmp/c11.prof")
-	pprof.StartCPUProfile(f)
-	t0 := time.Now()
-	for i := 0; i < 200; i++ {
-		p := filepath.Join(tmp, fmt.Sprintf("d%d", i))
-		d, err := ldb.CreateDB(p)
-		if err != nil {
-			panic(err)
-		}
-		mwdb.Update(d, func(tx mwdb.DBTransaction) error {
-			b, _ := tx.CreateTopLevelBucket("a")
-			b.Put([]byte("k"), []byte("v"))
-			return nil
-		})
-		d.Close()
-		d, err = ldb.OpenDB(p)
-		if err != nil {
-			panic(err)
-		}
-		d.Close()
-		os.RemoveAll(p)
+const nslots = 8
+
+// ---------------------------------------------------------------- reference (second oracle)
+
+type refState struct {
+	bk map[string]bool              // existing buckets, by path id
+	kv map[string]map[string]string // path id -> key -> value
+}
+
+func pid(names []string) string {
+	h := make([]string, len(names))
+	for i, n := range names {
+		h[i] = hex.EncodeToString([]byte(n))
 	}
-	pprof.StopCPUProfile()
-	fmt.Println(time.Since(t0))
+	return strings.Join(h, "/") + "/"
+}
+func newRef() *refState { return &refState{map[string]bool{}, map[string]map[string]string{}} }
+func (s *refState) clone() *refState {
+	c := newRef()
+	for k := range s.bk {
+		c.bk[k] = true
+	}
+	for p, m := range s.kv {
+		c.kv[p] = map[string]string{}
+		for k, v := range m {
+			c.kv[p][k] = v
+		}
+	}
+	return c
+}
+func (s *refState) put(p, k, v string) {
+	if s.kv[p] == nil {
+		s.kv[p] = map[string]string{}
+	}
+	s.kv[p][k] = v
+}
+func (s *refState) removeTree(p string) {
+	for q := range s.bk {
+		if strings.HasPrefix(q, p) {
+			delete(s.bk, q)
+		}
+	}
+	for q := range s.kv {
+		if strings.HasPrefix(q, p) {
+			delete(s.kv, q)
+		}
+	}
+}
+func (s *refState) children(p string) []string {
+	var out []string
+	for q := range s.bk {
+		if strings.HasPrefix(q, p) && q != p {
+			rest := strings.TrimSuffix(q[len(p):], "/")
+			if !strings.Contains(rest, "/") {
+				b, _ := hex.DecodeString(rest)
+				out = append(out, string(b))
+			}
+		}
+	}
+	sort.Strings(out)
+	return out
+}
+func (s *refState) entries(p string, keep func(k string) bool) [][2]string {
+	var out [][2]string
+	for k, v := range s.kv[p] {
+		if keep(k) {
+			out = append(out, [2]string{k, v})
+		}
+	}
+	sort.Slice(out, func(i, j int) bool { return out[i][0] < out[j][0] })
+	return out
+}
+
+type refIter struct {
+	ents [][2]string
+	pos  int // -1 = before the first, len = past the end
+}
+
+// ---------------------------------------------------------------- runner
+
+type slot struct {
+	w     bool
+	b     mwdb.Bucket
+	names []string
+}
+type islot struct {
+	w   bool
+	it  mwdb.Iterator
+	ref *refIter
+}
+type runner struct {
+	out   *bufio.Writer
+	base  string
+	dir   string
+	n     int
+	db    mwdb.DB
+	wtx   mwdb.DBTransaction
+	inUpd bool
+	rtx   mwdb.ReadTransaction
+	bs    [nslots]*slot
+	is    [nslots]*islot
+
+	committed *refState
+	pending   *refState
+	deleted   map[string]bool
+	tainted   bool
+
+	src   func() []string
+	stats map[string]int
+	lines int
+	bad   int
+}
+
+var errFail = errors.New("harness: requested failure")
+var errAbort = errors.New("harness: sequence ended inside Update")
+
+func hx(b []byte) string {
+	if len(b) == 0 {
+		return "-"
+	}
+	return hex.EncodeToString(b)
+}
+func unhx(s string) []byte {
+	if s == "-" {
+		return []byte{}
+	}
+	b, err := hex.DecodeString(s)
+	if err != nil {
+		return []byte{}
+	}
+	return b
+}
+func projErr(err error) string {
+	switch err {
+	case nil:
+		return "ok"
+	case mwdb.ErrIllegalKey:
+		return "err:invalid-key"
+	case mwdb.ErrIllegalValue:
+		return "err:invalid-value"
+	case mwdb.ErrBucketExist:
+		return "err:bucket-exists"
+	case mwdb.ErrBucketNotFound:
+		return "err:bucket-not-found"
+	case mwdb.ErrInvalidBucketName:
+		return "err:invalid-name"
+	case mwdb.ErrIllegalBucketPath:
+		return "err:invalid-path"
+	case mwdb.ErrWriteNotAllowed:
+		return "err:write-not-allowed"
+	case mwdb.ErrNotSupported:
+		return "err:not-supported"
+	}
+	return "err:other"
+}
+func entsStr(es [][2]string) string {
+	sort.Slice(es, func(i, j int) bool {
+		if es[i][0] != es[j][0] {
+			return es[i][0] < es[j][0]
+		}
+		return es[i][1] < es[j][1]
+	})
+	p := make([]string, len(es))
+	for i, e := range es {
+		p[i] = hx([]byte(e[0])) + "=" + hx([]byte(e[1]))
+	}
+	return "[" + strings.Join(p, ",") + "]"
+}
+func namesStr(ns []string) string {
+	s := append([]string(nil), ns...)
+	sort.Strings(s)
+	p := make([]string, len(s))
+	for i, n := range s {
+		p[i] = hx([]byte(n))
+	}
+	return "names:[" + strings.Join(p, ",") + "]"
+}
+func validName(n string) bool { return len(n) > 0 && len(n) <= 256 && !strings.Contains(n, "_") }
+func encPath(names []string) string {
+	return strconv.Itoa(len(names)) + "_" + strings.Join(names, "_")
+}
+
+func (r *runner) view(w bool) *refState {
+	if w {
+		return r.pending
+	}
+	return r.committed
+}
+func (r *runner) deletedHere(p string) bool {
+	for q := range r.deleted {
+		if strings.HasPrefix(p, q) {
+			return true
+		}
+	}
+	return false
+}
+func (r *runner) verdict(got, want string) string {
+	if r.tainted {
+		return "-"
+	}
+	if got == want {
+		return "ok"
+	}
+	return "BAD:" + want
+}
+func (r *runner) emit(op []string, res, ref string) {
+	fmt.Fprintf(r.out, "%s\t%s\t%s\n", strings.Join(op, " "), res, ref)
+	r.lines++
+	if strings.HasPrefix(ref, "BAD") {
+		r.bad++
+	}
+	r.stats[op[0]]++
+}
+
+func (r *runner) open(create bool) {
+	var err error
+	if create {
+		r.db, err = ldb.CreateDB(r.dir)
+	} else {
+		r.db, err = ldb.OpenDB(r.dir)
+	}
+	if err != nil {
+		panic(fmt.Sprintf("cannot open %s: %v", r.dir, err))
+	}
+}
+func (r *runner) dropTx(w bool) {
+	for i := range r.is {
+		if r.is[i] != nil && r.is[i].w == w {
+			r.is[i].it.Release()
+			r.is[i] = nil
+		}
+	}
+	for i := range r.bs {
+		if r.bs[i] != nil && r.bs[i].w == w {
+			r.bs[i] = nil
+		}
+	}
+}
+func (r *runner) reset() {
+	r.n++
+	r.dir = filepath.Join(r.base, fmt.Sprintf("db%d", r.n))
+	r.open(true)
+	r.committed, r.pending, r.deleted, r.tainted = newRef(), nil, nil, false
+}
+func (r *runner) teardown() {
+	r.dropTx(true)
+	r.dropTx(false)
+	if r.wtx != nil && !r.inUpd {
+		r.wtx.Rollback()
+	}
+	r.wtx, r.rtx, r.inUpd = nil, nil, false
+	if r.db != nil {
+		r.db.Close()
+		r.db = nil
+	}
+	os.RemoveAll(r.dir)
+}
+
+// runSeq executes one sequence (a fresh database) drawing ops from r.src until it returns nil.
+func (r *runner) runSeq(id string) {
+	r.reset()
+	r.emit([]string{"reset", id}, "ok", "-")
+	for {
+		op := r.src()
+		if op == nil {
+			break
+		}
+		if op[0] == "ubegin" && r.wtx == nil {
+			r.doUpdate(op)
+		} else {
+			r.execPrint(op)
+		}
+	}
+	r.teardown()
+}
+
+func (r *runner) doUpdate(op []string) {
+	r.emit(op, "ok", "-")
+	var endTok []string
+	err := mwdb.Update(r.db, func(tx mwdb.DBTransaction) error {
+		r.wtx, r.inUpd = tx, true
+		r.pending, r.deleted = r.committed.clone(), map[string]bool{}
+		for {
+			o := r.src()
+			if o == nil {
+				return errAbort
+			}
+			if o[0] == "uend" && len(o) == 2 {
+				endTok = o
+				if o[1] == "1" {
+					return errFail
+				}
+				return nil
+			}
+			r.execPrint(o)
+		}
+	})
+	r.dropTx(true)
+	r.wtx, r.inUpd = nil, false
+	if endTok != nil && err == nil {
+		r.committed = r.pending
+	}
+	r.pending = nil
+	if endTok != nil {
+		want := "ok"
+		if endTok[1] == "1" {
+			want = "err:other"
+		}
+		got := projErr(err)
+		r.emit(endTok, got, r.verdict(got, want))
+	}
+}
+
+func (r *runner) execPrint(op []string) {
+	res, ref := "panic", "BAD:no-panic"
+	func() {
+		defer func() {
+			if e := recover(); e != nil {
+				res, ref = "panic", "BAD:no-panic"
+				fmt.Fprintf(os.Stderr, "panic in %v: %v\n", op, e)
+			}
+		}()
+		res, ref = r.exec(op)
+	}()
+	r.emit(op, res, ref)
+}
+
+func atoi(s string) int {
+	n, err := strconv.Atoi(s)
+	if err != nil || n < 0 || n >= nslots {
+		return -1
+	}
+	return n
+}
+
+func (r *runner) txOf(w bool) (interface {
+	TopLevelBucket(string) mwdb.Bucket
+	FetchBucket(mwdb.BucketMeta) mwdb.Bucket
+	BucketNames() ([]string, error)
+}, bool) {
+	if w {
+		if r.wtx == nil {
+			return nil, false
+		}
+		return r.wtx, true
+	}
+	if r.rtx == nil {
+		return nil, false
+	}
+	return r.rtx, true
+}
+
+// existence verdict for TopLevelBucket / Bucket / FetchBucket
+func (r *runner) existVerdict(w bool, names []string, got bool) string {
+	if r.tainted {
+		return "-"
+	}
+	want := r.view(w).bk[pid(names)]
+	if got == want {
+		return "ok"
+	}
+	if got && !want && w && r.deletedHere(pid(names)) {
+		// Bucket() after DeleteBucket in the same transaction still answers: outside the property text
+		r.tainted = true
+		return "-"
+	}
+	if want {
+		return "BAD:ok"
+	}
+	return "BAD:nil"
+}
+
+func (r *runner) setSlot(dst int, w bool, b mwdb.Bucket, names []string) string {
+	if b == nil {
+		r.bs[dst] = nil
+		return "nil"
+	}
+	r.bs[dst] = &slot{w, b, append([]string(nil), names...)}
+	return "ok"
+}
+
+func (r *runner) slotOf(tok string) *slot {
+	i := atoi(tok)
+	if i < 0 || r.bs[i] == nil {
+		return nil
+	}
+	s := r.bs[i]
+	if (s.w && r.wtx == nil) || (!s.w && r.rtx == nil) {
+		return nil
+	}
+	return s
+}
+
+func (r *runner) dumpImpl() string {
+	var parts []string
+	var rec func(b mwdb.Bucket)
+	rec = func(b mwdb.Bucket) {
+		path := strings.Join(b.GetBucketMeta().Paths(), "_")
+		names, err := b.BucketNames()
+		if err != nil {
+			parts = append(parts, hx([]byte(path))+"!"+projErr(err))
+			return
+		}
+		es, err := b.GetByPrefix(nil)
+		if err != nil {
+			parts = append(parts, hx([]byte(path))+"!"+projErr(err))
+			return
+		}
+		l := make([][2]string, len(es))
+		for i, e := range es {
+			l[i] = [2]string{string(e.Key), string(e.Value)}
+		}
+		parts = append(parts, hx([]byte(path))+entsStr(l))
+		sort.Strings(names)
+		for _, n := range names {
+			if sub := b.Bucket(n); sub != nil {
+				rec(sub)
+			} else {
+				parts = append(parts, hx([]byte(n))+"!err:bucket-not-found")
+			}
+		}
+	}
+	mwdb.View(r.db, func(tx mwdb.ReadTransaction) error {
+		names, err := tx.BucketNames()
+		if err != nil {
+			parts = append(parts, "-!"+projErr(err))
+			return nil
+		}
+		sort.Strings(names)
+		for _, n := range names {
+			if b := tx.TopLevelBucket(n); b != nil {
+				rec(b)
+			} else {
+				parts = append(parts, hx([]byte(n))+"!err:bucket-not-found")
+			}
+		}
+		return nil
+	})
+	return "dump:" + strings.Join(parts, ";")
+}
+func (r *runner) dumpRef() string {
+	var parts []string
+	var rec func(names []string)
+	rec = func(names []string) {
+		p := pid(names)
+		parts = append(parts, hx([]byte(encPath(names)))+entsStr(r.committed.entries(p, func(string) bool { return true })))
+		for _, c := range r.committed.children(p) {
+			rec(append(append([]string(nil), names...), c))
+		}
+	}
+	for _, c := range r.committed.children("") {
+		rec([]string{c})
+	}
+	return "dump:" + strings.Join(parts, ";")
+}
+
+func (r *runner) exec(op []string) (string, string) {
+	bad := func() (string, string) { return "skip", "-" }
+	switch op[0] {
+	case "begin":
+		if len(op) != 2 {
+			return bad()
+		}
+		if op[1] == "w" {
+			if r.wtx != nil {
+				return bad()
+			}
+			tx, err := r.db.BeginTx()
+			if err != nil {
+				return projErr(err), "BAD:ok"
+			}
+			r.wtx = tx
+			r.pending, r.deleted = r.committed.clone(), map[string]bool{}
+			return "ok", "-"
+		}
+		if r.rtx != nil {
+			return bad()
+		}
+		tx, err := r.db.BeginReadTx()
+		if err != nil {
+			return projErr(err), "BAD:ok"
+		}
+		r.rtx = tx
+		return "ok", "-"
+	case "commit", "rollback":
+		if r.wtx == nil || r.inUpd {
+			return bad()
+		}
+		r.dropTx(true)
+		var err error
+		if op[0] == "commit" {
+			err = r.wtx.Commit()
+			if err == nil {
+				r.committed = r.pending
+			}
+		} else {
+			err = r.wtx.Rollback()
+		}
+		r.wtx, r.pending = nil, nil
+		got := projErr(err)
+		return got, r.verdict(got, "ok")
+	case "rend":
+		if r.rtx == nil {
+			return bad()
+		}
+		r.dropTx(false)
+		err := r.rtx.Rollback()
+		r.rtx = nil
+		return projErr(err), "-"
+	case "ubegin", "uend":
+		return bad()
+	case "reopen":
+		if r.wtx != nil || r.rtx != nil {
+			return bad()
+		}
+		if err := r.db.Close(); err != nil {
+			return projErr(err), "BAD:ok"
+		}
+		r.db = nil
+		r.open(false)
+		return "ok", "-"
+	case "dump":
+		got := r.dumpImpl()
+		return got, r.verdict(got, r.dumpRef())
+	case "bp":
+		if len(op) != 2 {
+			return bad()
+		}
+		p := unhx(op[1])
+		rg := mwdb.BytesPrefix(append([]byte(nil), p...))
+		lim := "none"
+		if rg.Limit != nil {
+			lim = hx(rg.Limit)
+		}
+		got := "range:" + hx(rg.Start) + ":" + lim
+		// reference: strip trailing 0xff, increment the last remaining byte
+		q := append([]byte(nil), p...)
+		for len(q) > 0 && q[len(q)-1] == 0xff {
+			q = q[:len(q)-1]
+		}
+		want := "range:" + hx(p) + ":none"
+		if len(q) > 0 {
+			q[len(q)-1]++
+			want = "range:" + hx(p) + ":" + hx(q)
+		}
+		return got, r.verdict(got, want)
+	case "top", "txnames", "fetch":
+		if len(op) < 2 {
+			return bad()
+		}
+		w := op[1] == "w"
+		tx, ok := r.txOf(w)
+		if !ok {
+			return bad()
+		}
+		switch op[0] {
+		case "top":
+			if len(op) != 4 || atoi(op[2]) < 0 {
+				return bad()
+			}
+			name := string(unhx(op[3]))
+			b := tx.TopLevelBucket(name)
+			v := r.existVerdict(w, []string{name}, b != nil)
+			return r.setSlot(atoi(op[2]), w, b, []string{name}), v
+		case "txnames":
+			names, err := tx.BucketNames()
+			if err != nil {
+				return projErr(err), r.verdict("err", "names")
+			}
+			got := namesStr(names)
+			return got, r.verdict(got, namesStr(r.view(w).children("")))
+		default:
+			if len(op) != 4 || atoi(op[2]) < 0 {
+				return bad()
+			}
+			s := r.slotOf(op[3])
+			if s == nil {
+				return bad()
+			}
+			b := tx.FetchBucket(s.b.GetBucketMeta())
+			v := r.existVerdict(w, s.names, b != nil)
+			return r.setSlot(atoi(op[2]), w, b, s.names), v
+		}
+	case "ctop":
+		if len(op) != 3 || atoi(op[1]) < 0 || r.wtx == nil {
+			return bad()
+		}
+		name := string(unhx(op[2]))
+		p := pid([]string{name})
+		b, err := r.wtx.CreateTopLevelBucket(name)
+		got := projErr(err)
+		want := ""
+		switch {
+		case !validName(name):
+			want = "err:invalid-name"
+		case r.committed.bk[p]:
+			want = "err:bucket-exists"
+		case !r.pending.bk[p]:
+			want = "ok"
+		}
+		if err == nil {
+			r.pending.bk[p] = true
+			r.setSlot(atoi(op[1]), true, b, []string{name})
+		}
+		if want == "" {
+			return got, "-"
+		}
+		return got, r.verdict(got, want)
+	case "dtop":
+		if len(op) != 2 || r.wtx == nil {
+			return bad()
+		}
+		return projErr(r.wtx.DeleteTopLevelBucket(string(unhx(op[1])))), "-"
+	case "new", "bkt":
+		if len(op) != 4 || atoi(op[1]) < 0 {
+			return bad()
+		}
+		s := r.slotOf(op[2])
+		if s == nil {
+			return bad()
+		}
+		name := string(unhx(op[3]))
+		names := append(append([]string(nil), s.names...), name)
+		p := pid(names)
+		if op[0] == "bkt" {
+			b := s.b.Bucket(name)
+			v := r.existVerdict(s.w, names, b != nil)
+			return r.setSlot(atoi(op[1]), s.w, b, names), v
+		}
+		b, err := s.b.NewBucket(name)
+		got := projErr(err)
+		want := ""
+		switch {
+		case !s.w:
+			want = "err:write-not-allowed"
+		case !validName(name):
+			want = "err:invalid-name"
+		case r.committed.bk[p] && r.pending.bk[p]:
+			want = "err:bucket-exists"
+		case !r.pending.bk[p] && !r.deletedHere(p):
+			want = "ok"
+		}
+		if err == nil {
+			if !r.pending.bk[pid(s.names)] {
+				r.tainted = true // a bucket created under a parent that no longer exists: outside the property text
+			}
+			r.pending.bk[p] = true
+			r.setSlot(atoi(op[1]), true, b, names)
+		}
+		if want == "" {
+			return got, "-"
+		}
+		return got, r.verdict(got, want)
+	case "delb":
+		if len(op) != 3 {
+			return bad()
+		}
+		s := r.slotOf(op[1])
+		if s == nil {
+			return bad()
+		}
+		name := string(unhx(op[2]))
+		p := pid(append(append([]string(nil), s.names...), name))
+		got := projErr(s.b.DeleteBucket(name))
+		if !s.w {
+			return got, r.verdict(got, "err:write-not-allowed")
+		}
+		if r.pending.bk[p] {
+			r.pending.removeTree(p)
+			r.deleted[p] = true
+		}
+		return got, r.verdict(got, "ok")
+	case "names":
+		if len(op) != 2 {
+			return bad()
+		}
+		s := r.slotOf(op[1])
+		if s == nil {
+			return bad()
+		}
+		names, err := s.b.BucketNames()
+		if err != nil {
+			return projErr(err), r.verdict("err", "names")
+		}
+		got := namesStr(names)
+		return got, r.verdict(got, namesStr(r.view(s.w).children(pid(s.names))))
+	case "put":
+		if len(op) != 4 {
+			return bad()
+		}
+		s := r.slotOf(op[1])
+		if s == nil {
+			return bad()
+		}
+		k, v := unhx(op[2]), unhx(op[3])
+		got := projErr(s.b.Put(append([]byte(nil), k...), append([]byte(nil), v...)))
+		want := "ok"
+		switch {
+		case !s.w:
+			want = "err:write-not-allowed"
+		case len(v) == 0:
+			want = "err:invalid-value"
+		case len(k) == 0:
+			want = "err:invalid-key"
+		}
+		if got == "ok" {
+			if !r.pending.bk[pid(s.names)] {
+				r.tainted = true // write through a handle of a deleted bucket: outside the property text
+			}
+			r.pending.put(pid(s.names), string(k), string(v))
+		}
+		return got, r.verdict(got, want)
+	case "rm":
+		if len(op) != 3 {
+			return bad()
+		}
+		s := r.slotOf(op[1])
+		if s == nil {
+			return bad()
+		}
+		k := unhx(op[2])
+		got := projErr(s.b.Delete(append([]byte(nil), k...)))
+		if !s.w {
+			return got, r.verdict(got, "err:write-not-allowed")
+		}
+		if got == "ok" && r.pending.kv[pid(s.names)] != nil {
+			delete(r.pending.kv[pid(s.names)], string(k))
+		}
+		return got, r.verdict(got, "ok")
+	case "get":
+		if len(op) != 3 {
+			return bad()
+		}
+		s := r.slotOf(op[1])
+		if s == nil {
+			return bad()
+		}
+		k := unhx(op[2])
+		v, err := s.b.Get(append([]byte(nil), k...))
+		got := "nil"
+		if err != nil {
+			got = projErr(err)
+		} else if v != nil {
+			got = "v:" + hx(v)
+		}
+		want := "nil"
+		if x, ok := r.view(s.w).kv[pid(s.names)][string(k)]; ok {
+			want = "v:" + hx([]byte(x))
+		}
+		return got, r.verdict(got, want)
+	case "clear":
+		if len(op) != 2 {
+			return bad()
+		}
+		s := r.slotOf(op[1])
+		if s == nil {
+			return bad()
+		}
+		got := projErr(s.b.Clear())
+		if !s.w {
+			return got, r.verdict(got, "err:write-not-allowed")
+		}
+		if got == "ok" {
+			delete(r.pending.kv, pid(s.names))
+		}
+		return got, r.verdict(got, "ok")
+	case "pfx":
+		if len(op) != 3 {
+			return bad()
+		}
+		s := r.slotOf(op[1])
+		if s == nil {
+			return bad()
+		}
+		p := unhx(op[2])
+		es, err := s.b.GetByPrefix(append([]byte(nil), p...))
+		if err != nil {
+			return projErr(err), r.verdict("err", "ents")
+		}
+		l := make([][2]string, len(es))
+		for i, e := range es {
+			l[i] = [2]string{string(e.Key), string(e.Value)}
+		}
+		got := "ents:" + entsStr(l)
+		want := "ents:" + entsStr(r.view(s.w).entries(pid(s.names), func(k string) bool { return strings.HasPrefix(k, string(p)) }))
+		return got, r.verdict(got, want)
+	case "iter":
+		if len(op) != 6 || atoi(op[1]) < 0 {
+			return bad()
+		}
+		s := r.slotOf(op[2])
+		if s == nil {
+			return bad()
+		}
+		dst := atoi(op[1])
+		if r.is[dst] != nil {
+			r.is[dst].it.Release()
+			r.is[dst] = nil
+		}
+		a, l := unhx(op[4]), unhx(op[5])
+		var it mwdb.Iterator
+		var keep func(k string) bool
+		switch op[3] {
+		case "0":
+			it = s.b.NewIterator(nil)
+			keep = func(string) bool { return true }
+		case "1":
+			it = s.b.NewIterator(&mwdb.Range{Start: append([]byte(nil), a...), Limit: append([]byte(nil), l...)})
+			keep = func(k string) bool { return k >= string(a) && (len(l) == 0 || k < string(l)) }
+		default:
+			it = s.b.NewIterator(mwdb.BytesPrefix(append([]byte(nil), a...)))
+			keep = func(k string) bool { return strings.HasPrefix(k, string(a)) }
+		}
+		sl := &islot{w: s.w, it: it}
+		if !s.w && !r.tainted {
+			sl.ref = &refIter{ents: r.committed.entries(pid(s.names), keep), pos: -1}
+		}
+		r.is[dst] = sl
+		return "ok", "-"
+	case "seek", "next", "rel":
+		if len(op) < 2 || atoi(op[1]) < 0 || r.is[atoi(op[1])] == nil {
+			return bad()
+		}
+		sl := r.is[atoi(op[1])]
+		if op[0] == "rel" {
+			sl.it.Release()
+			r.is[atoi(op[1])] = nil
+			return "ok", "-"
+		}
+		var ok bool
+		if op[0] == "seek" {
+			if len(op) != 3 {
+				return bad()
+			}
+			k := unhx(op[2])
+			ok = sl.it.Seek(append([]byte(nil), k...))
+			if sl.ref != nil {
+				sl.ref.pos = sort.Search(len(sl.ref.ents), func(i int) bool { return sl.ref.ents[i][0] >= string(k) })
+			}
+		} else {
+			ok = sl.it.Next()
+			if sl.ref != nil && sl.ref.pos < len(sl.ref.ents) {
+				sl.ref.pos++
+			}
+		}
+		key, val := sl.it.Key(), sl.it.Value()
+		ks := "nil"
+		if key != nil {
+			ks = hx(key)
+		}
+		got := fmt.Sprintf("it:%s:%s:%s", map[bool]string{true: "T", false: "F"}[ok], ks, hx(val))
+		if sl.ref == nil {
+			return got, "-"
+		}
+		want := "it:F:nil:-"
+		if sl.ref.pos >= 0 && sl.ref.pos < len(sl.ref.ents) {
+			e := sl.ref.ents[sl.ref.pos]
+			want = fmt.Sprintf("it:T:%s:%s", hx([]byte(e[0])), hx([]byte(e[1])))
+		}
+		return got, r.verdict(got, want)
+	}
+	return bad()
+}
+
+// ---------------------------------------------------------------- generator
+
+var namePool = []string{"a", "b", "ab", "1", "2", "10", "\x00", "\xff", "a\xff", "b1", "k", "_", "a_b", "", "2_a"}
+var keyPool = []string{"a", "b", "ab", "abc", "a_", "_", "__", "_a", "a_b", "1", "2", "1_a", "2_a_b", "b_1_a", "b_2_a_b",
+	"\x00", "a\x00", "\xff", "\xff\xff", "a\xff", "a\xff\xff", "a\xffb", "\xfe", "\xfe\xff", "k1", "k2", "`", "a`", ""}
+var valPool = []string{"v", "w", "x", "\x00", "\xff", "a_b", "1", ""}
+var alphabet = []byte{'_', '1', '2', 'a', 'b', 0x00, 0xff, 0xfe, '`', '^'}
+
+type gen struct {
+	r    *rng.R
+	run  *runner
+	left int
+	// per-sequence working sets (small, so that reads hit what was written)
+	wn, wk []string
+}
+
+func newGen(r *rng.R, run *runner, left int) *gen {
+	g := &gen{r: r, run: run, left: left}
+	for i, n := 0, 2+r.Intn(3); i < n; i++ {
+		g.wn = append(g.wn, g.poolName())
+	}
+	for i, n := 0, 3+r.Intn(6); i < n; i++ {
+		g.wk = append(g.wk, g.poolKey())
+	}
+	return g
+}
+func (g *gen) name() string {
+	if g.r.Chance(80) {
+		return g.wn[g.r.Intn(len(g.wn))]
+	}
+	return g.poolName()
+}
+func (g *gen) key() string {
+	if g.r.Chance(80) {
+		return g.wk[g.r.Intn(len(g.wk))]
+	}
+	return g.poolKey()
+}
+func (g *gen) prefix() string {
+	k := g.key()
+	switch c := g.r.Intn(10); {
+	case c < 2:
+		return ""
+	case c < 6 && len(k) > 0:
+		return k[:1+g.r.Intn(len(k))]
+	case c < 7:
+		return k + "\xff"
+	}
+	return k
+}
+
+func (g *gen) randBytes(max int) string {
+	n := g.r.Intn(max + 1)
+	b := make([]byte, n)
+	for i := range b {
+		b[i] = alphabet[g.r.Intn(len(alphabet))]
+	}
+	return string(b)
+}
+func (g *gen) poolName() string {
+	switch k := g.r.Intn(100); {
+	case k < 80:
+		return namePool[g.r.Intn(len(namePool))]
+	case k < 84:
+		return strings.Repeat("n", 256)
+	case k < 86:
+		return strings.Repeat("n", 257)
+	default:
+		return strings.Replace(g.randBytes(3), "_", "c", -1)
+	}
+}
+func (g *gen) poolKey() string {
+	switch k := g.r.Intn(100); {
+	case k < 75:
+		return keyPool[g.r.Intn(len(keyPool))]
+	case k < 78:
+		return strings.Repeat("x", 300) + g.randBytes(2)
+	default:
+		return g.randBytes(4)
+	}
+}
+func (g *gen) val() string {
+	switch k := g.r.Intn(100); {
+	case k < 80:
+		return valPool[g.r.Intn(len(valPool))]
+	case k < 84:
+		return strings.Repeat("V", 700)
+	default:
+		return g.randBytes(5)
+	}
+}
+func h(s string) string { return hx([]byte(s)) }
+
+// pick a filled bucket slot of the given transaction kind (or any), -1 if none
+func (g *gen) slot(want func(*slot) bool) int {
+	var c []int
+	for i, s := range g.run.bs {
+		if s != nil && want(s) {
+			c = append(c, i)
+		}
+	}
+	if len(c) == 0 {
+		return -1
+	}
+	return c[g.r.Intn(len(c))]
+}
+func (g *gen) islot() int {
+	var c []int
+	for i, s := range g.run.is {
+		if s != nil {
+			c = append(c, i)
+		}
+	}
+	if len(c) == 0 {
+		return -1
+	}
+	return c[g.r.Intn(len(c))]
+}
+func (g *gen) dst() string { return strconv.Itoa(g.r.Intn(nslots - 2)) }
+
+func (g *gen) next() []string {
+	if g.left <= 0 {
+		return nil
+	}
+	g.left--
+	run, r := g.run, g.r
+	for try := 0; try < 50; try++ {
+		k := r.Intn(1000)
+		anyS := func(*slot) bool { return true }
+		wS := func(s *slot) bool { return s.w }
+		if run.wtx == nil && run.rtx == nil {
+			switch {
+			case k < 350:
+				return []string{"ubegin"}
+			case k < 700:
+				return []string{"begin", "w"}
+			case k < 820:
+				return []string{"begin", "r"}
+			case k < 900:
+				return []string{"reopen"}
+			case k < 960:
+				return []string{"dump"}
+			default:
+				return []string{"bp", h(g.prefix())}
+			}
+		}
+		if run.wtx == nil { // only a read transaction
+			switch {
+			case k < 120:
+				return []string{"begin", "w"}
+			case k < 200:
+				return []string{"ubegin"}
+			case k < 260:
+				return []string{"rend"}
+			}
+		}
+		if run.wtx != nil && run.rtx == nil && k < 15 {
+			return []string{"begin", "r"}
+		}
+		w := run.wtx != nil && (run.rtx == nil || r.Chance(75))
+		ws := map[bool]string{true: "w", false: "r"}[w]
+		mine := func(s *slot) bool { return s.w == w }
+		switch {
+		case k < 290:
+			if run.wtx != nil && r.Chance(15) {
+				if run.inUpd {
+					return []string{"uend", map[bool]string{true: "1", false: "0"}[r.Chance(30)]}
+				}
+				if r.Chance(70) {
+					return []string{"commit"}
+				}
+				return []string{"rollback"}
+			}
+			if s := g.slot(wS); s >= 0 {
+				return []string{"put", strconv.Itoa(s), h(g.key()), h(g.val())}
+			}
+			if run.wtx != nil {
+				return []string{"ctop", g.dst(), h(g.name())}
+			}
+		case k < 340:
+			if run.wtx != nil {
+				return []string{"ctop", g.dst(), h(g.name())}
+			}
+		case k < 400:
+			return []string{"top", ws, g.dst(), h(g.name())}
+		case k < 470:
+			if s := g.slot(wS); s >= 0 && run.bs[s].names != nil && len(run.bs[s].names) < 5 {
+				return []string{"new", g.dst(), strconv.Itoa(s), h(g.name())}
+			}
+		case k < 530:
+			if s := g.slot(mine); s >= 0 {
+				return []string{"bkt", g.dst(), strconv.Itoa(s), h(g.name())}
+			}
+		case k < 570:
+			if s := g.slot(wS); s >= 0 {
+				return []string{"delb", strconv.Itoa(s), h(g.name())}
+			}
+		case k < 610:
+			if s := g.slot(mine); s >= 0 {
+				return []string{"names", strconv.Itoa(s)}
+			}
+		case k < 630:
+			return []string{"txnames", ws}
+		case k < 690:
+			if s := g.slot(wS); s >= 0 {
+				return []string{"rm", strconv.Itoa(s), h(g.key())}
+			}
+		case k < 780:
+			if s := g.slot(mine); s >= 0 {
+				return []string{"get", strconv.Itoa(s), h(g.key())}
+			}
+		case k < 840:
+			if s := g.slot(mine); s >= 0 {
+				return []string{"pfx", strconv.Itoa(s), h(g.prefix())}
+			}
+		case k < 850:
+			if s := g.slot(wS); s >= 0 {
+				return []string{"clear", strconv.Itoa(s)}
+			}
+		case k < 860:
+			if s := g.slot(anyS); s >= 0 {
+				return []string{"fetch", ws, g.dst(), strconv.Itoa(s)}
+			}
+		case k < 900:
+			if s := g.slot(func(s *slot) bool { return !s.w || r.Chance(30) }); s >= 0 {
+				d := strconv.Itoa(r.Intn(3))
+				switch m := r.Intn(10); {
+				case m < 3:
+					return []string{"iter", d, strconv.Itoa(s), "0", "-", "-"}
+				case m < 6:
+					return []string{"iter", d, strconv.Itoa(s), "1", h(g.key()), h(g.key())}
+				default:
+					return []string{"iter", d, strconv.Itoa(s), "2", h(g.prefix()), "-"}
+				}
+			}
+		case k < 960:
+			if i := g.islot(); i >= 0 {
+				if r.Chance(25) {
+					return []string{"seek", strconv.Itoa(i), h(g.key())}
+				}
+				return []string{"next", strconv.Itoa(i)}
+			}
+		case k < 965:
+			if i := g.islot(); i >= 0 {
+				return []string{"rel", strconv.Itoa(i)}
+			}
+		case k < 975:
+			return []string{"dump"}
+		case k < 980:
+			if run.wtx != nil {
+				return []string{"dtop", h(g.name())}
+			}
+		case k < 990:
+			if s := g.slot(func(s *slot) bool { return !s.w }); s >= 0 { // writes through a read-only bucket
+				return []string{"put", strconv.Itoa(s), h(g.key()), h(g.val())}
+			}
+		default:
+			return []string{"bp", h(g.prefix())}
+		}
+	}
+	return []string{"bp", h(g.prefix())}
+}
+
+// ---------------------------------------------------------------- exhaustive small sequences
+
+// every sequence of length <= maxLen over a small op alphabet, run after a fixed committed prologue
+func exhaustive(maxLen int, f func(id string, ops [][]string)) {
+	A, B, C := h("a"), h("k"), h("c")
+	k1, k2, v1, v2 := h("a"), h("a\xff"), h("v"), h("w")
+	pro := [][]string{{"begin", "w"}, {"ctop", "0", A}, {"put", "0", k1, v1}, {"new", "1", "0", C}, {"put", "1", k1, v1}, {"commit"},
+		{"begin", "w"}, {"top", "w", "0", A}, {"bkt", "1", "0", C}}
+	alpha := [][][]string{
+		{{"put", "0", k1, v2}}, {{"put", "0", k2, v1}}, {{"rm", "0", k1}}, {{"get", "0", k1}}, {{"pfx", "0", k1}},
+		{{"clear", "0"}}, {{"put", "1", k1, v2}}, {{"delb", "0", C}}, {{"new", "1", "0", C}}, {{"names", "0"}},
+		{{"commit"}, {"dump"}, {"begin", "w"}, {"top", "w", "0", A}, {"bkt", "1", "0", C}},
+		{{"rollback"}, {"dump"}, {"begin", "w"}, {"top", "w", "0", A}, {"bkt", "1", "0", C}},
+		{{"get", "1", k1}},
+	}
+	_ = B
+	epi := [][]string{{"pfx", "0", "-"}, {"names", "0"}, {"commit"}, {"dump"}, {"begin", "r"}, {"top", "r", "2", A}, {"iter", "0", "2", "2", k1, "-"},
+		{"next", "0"}, {"next", "0"}, {"next", "0"}, {"seek", "0", k2}, {"bkt", "3", "2", C}, {"pfx", "3", "-"}}
+	idx := make([]int, 0, maxLen)
+	n := 0
+	var rec func()
+	rec = func() {
+		ops := append([][]string(nil), pro...)
+		for _, i := range idx {
+			ops = append(ops, alpha[i]...)
+		}
+		ops = append(ops, epi...)
+		f(fmt.Sprintf("x%d", n), ops)
+		n++
+		if len(idx) == maxLen {
+			return
+		}
+		for i := range alpha {
+			idx = append(idx, i)
+			rec()
+			idx = idx[:len(idx)-1]
+		}
+	}
+	rec()
+}
+
+// ---------------------------------------------------------------- main
+
+func main() {
+	tier := flag.String("tier", "quick", "quick|thorough")
+	outPath := flag.String("out", "", "output file")
+	replay := flag.String("replay", "", "file with op lines (first tab-separated field); 'reset' starts a new database")
+	shard := flag.String("shard", "0/1", "i/n: run the sequences with index = i mod n")
+	nseq := flag.Int("n", 0, "number of random sequences (default by tier)")
+	nops := flag.Int("ops", 60, "ops per random sequence")
+	exh := flag.Int("exhaustive", -1, "max length of the exhaustive small sequences (default by tier; 0 = none)")
+	flag.Parse()
+
+	f := os.Stdout
+	if *outPath != "" {
+		var err error
+		f, err = os.Create(*outPath)
+		if err != nil {
+			panic(err)
+		}
+		defer f.Close()
+	}
+	base, err := os.MkdirTemp("", "verif-c11-")
+	if err != nil {
+		panic(err)
+	}
+	defer os.RemoveAll(base)
+	logging.Init(filepath.Join(base, "log"), "c11.log", "fatal", 1, true)
+
+	run := &runner{out: bufio.NewWriterSize(f, 1<<20), base: base, stats: map[string]int{}}
+	defer run.out.Flush()
+
+	if *replay != "" {
+		data, err := os.ReadFile(*replay)
+		if err != nil {
+			panic(err)
+		}
+		var seqs [][][]string
+		var ids []string
+		for _, line := range strings.Split(string(data), "\n") {
+			opstr := strings.SplitN(line, "\t", 2)[0]
+			if strings.TrimSpace(opstr) == "" {
+				continue
+			}
+			toks := strings.Split(opstr, " ")
+			if toks[0] == "reset" {
+				seqs = append(seqs, nil)
+				id := "r"
+				if len(toks) > 1 {
+					id = toks[1]
+				}
+				ids = append(ids, id)
+				continue
+			}
+			if len(seqs) == 0 {
+				seqs = append(seqs, nil)
+				ids = append(ids, "r0")
+			}
+			seqs[len(seqs)-1] = append(seqs[len(seqs)-1], toks)
+		}
+		for i, ops := range seqs {
+			pos := 0
+			run.src = func() []string {
+				if pos >= len(ops) {
+					return nil
+				}
+				pos++
+				return ops[pos-1]
+			}
+			run.runSeq(ids[i])
+		}
+		return
+	}
+
+	var si, sn int
+	fmt.Sscanf(*shard, "%d/%d", &si, &sn)
+	if sn <= 0 {
+		sn = 1
+	}
+	n := *nseq
+	if n == 0 {
+		n = 2000
+		if *tier == "thorough" {
+			n = 12000
+		}
+	}
+	ex := *exh
+	if ex < 0 {
+		ex = 2
+		if *tier == "thorough" {
+			ex = 4
+		}
+	}
+	seed := rng.Seed()
+	for j := 0; j < n; j++ {
+		if j%sn != si {
+			continue
+		}
+		g := newGen(rng.New(seed*1000003+uint64(j)*7919+11), run, *nops)
+		if j%10 == 9 {
+			g.left = *nops * 3
+		}
+		run.src = g.next
+		run.runSeq(fmt.Sprintf("s%d", j))
+	}
+	cnt := 0
+	if ex > 0 {
+		exhaustive(ex, func(id string, ops [][]string) {
+			cnt++
+			if (cnt-1)%sn != si {
+				return
+			}
+			pos := 0
+			run.src = func() []string {
+				if pos >= len(ops) {
+					return nil
+				}
+				pos++
+				return ops[pos-1]
+			}
+			run.runSeq(id)
+		})
+	}
+	fmt.Fprintf(os.Stderr, "stats lines=%d refbad=%d kinds=%v\n", run.lines, run.bad, run.stats)
 }
